@@ -2,7 +2,9 @@
     over an abstract Storage (id -> stored JSON), as the code is in /repo
     after the fix: commits D2/D3 (unindex the stored rule on overwrite), D13
     (store the prepared fact), D18 (checked 'when'), D29 (non-map rule is
-    skipped by the linear state).  Time is a parameter (Unix seconds).
+    skipped by the linear state), D52 (the readers only NOTE the expired
+    items they meet; the public entry points purge the noted items under the
+    write lock, after the read).  Time is a parameter (Unix seconds).
     Model file: definitions only. *)
 From Verif Require Import Json Outcome Match PatIndex.
 
@@ -17,25 +19,28 @@ Record state := mkState {
   st_hooks : bool;                           (* cron hooks installed (sys.System) *)
   st_calls : nat;                            (* storage calls made so far *)
   st_fail : option nat;                      (* the storage call with this index fails *)
-  st_amb : bool;                             (* ghost: an expiry cascade happened inside an iteration *)
+  st_amb : bool;                             (* ghost, no longer set: an expiry cascade happened inside an iteration *)
+  st_pending : list string;                  (* expiredIds: ids of the expired items the readers have met, in the
+                                                order they were noted; emptied by purge *)
 }.
 
-Definition set_facts s f := mkState (st_kind s) f (st_tindex s) (st_pindex s) (st_store s) (st_hooks s) (st_calls s) (st_fail s) (st_amb s).
-Definition set_tindex s t := mkState (st_kind s) (st_facts s) t (st_pindex s) (st_store s) (st_hooks s) (st_calls s) (st_fail s) (st_amb s).
-Definition set_pindex s p := mkState (st_kind s) (st_facts s) (st_tindex s) p (st_store s) (st_hooks s) (st_calls s) (st_fail s) (st_amb s).
-Definition set_store s st := mkState (st_kind s) (st_facts s) (st_tindex s) (st_pindex s) st (st_hooks s) (st_calls s) (st_fail s) (st_amb s).
-Definition set_amb s a := mkState (st_kind s) (st_facts s) (st_tindex s) (st_pindex s) (st_store s) (st_hooks s) (st_calls s) (st_fail s) a.
-Definition set_fail s f := mkState (st_kind s) (st_facts s) (st_tindex s) (st_pindex s) (st_store s) (st_hooks s) (st_calls s) f (st_amb s).
+Definition set_facts s f := mkState (st_kind s) f (st_tindex s) (st_pindex s) (st_store s) (st_hooks s) (st_calls s) (st_fail s) (st_amb s) (st_pending s).
+Definition set_tindex s t := mkState (st_kind s) (st_facts s) t (st_pindex s) (st_store s) (st_hooks s) (st_calls s) (st_fail s) (st_amb s) (st_pending s).
+Definition set_pindex s p := mkState (st_kind s) (st_facts s) (st_tindex s) p (st_store s) (st_hooks s) (st_calls s) (st_fail s) (st_amb s) (st_pending s).
+Definition set_store s st := mkState (st_kind s) (st_facts s) (st_tindex s) (st_pindex s) st (st_hooks s) (st_calls s) (st_fail s) (st_amb s) (st_pending s).
+Definition set_amb s a := mkState (st_kind s) (st_facts s) (st_tindex s) (st_pindex s) (st_store s) (st_hooks s) (st_calls s) (st_fail s) a (st_pending s).
+Definition set_pending s p := mkState (st_kind s) (st_facts s) (st_tindex s) (st_pindex s) (st_store s) (st_hooks s) (st_calls s) (st_fail s) (st_amb s) p.
+Definition set_fail s f := mkState (st_kind s) (st_facts s) (st_tindex s) (st_pindex s) (st_store s) (st_hooks s) (st_calls s) f (st_amb s) (st_pending s).
 
 Definition empty_state (k : skind) (hooks : bool) : state :=
-  mkState k [] [] pn_empty [] hooks O None false.
+  mkState k [] [] pn_empty [] hooks O None false [].
 
 (** One storage call: returns the state with the call counted and whether
     this call fails. *)
 Definition store_call (s : state) : state * bool :=
   let failed := match st_fail s with Some n => Nat.eqb n (st_calls s) | None => false end in
   (mkState (st_kind s) (st_facts s) (st_tindex s) (st_pindex s) (st_store s) (st_hooks s)
-           (S (st_calls s)) (st_fail s) (st_amb s), failed).
+           (S (st_calls s)) (st_fail s) (st_amb s) (st_pending s), failed).
 
 (** ** Terms and the inverted index *)
 
@@ -224,71 +229,58 @@ Definition index_rule (s : state) (id : string) (rule : json) : state * option s
 
 Definition dw_pattern (id : string) : json := JObj [("deleteWith", JArr [JStr id])].
 
+Definition count_facts (s : state) : nat := length (st_facts s).
+
+(** expiredIds.note *)
+Definition note_expired (s : state) (id : string) : state :=
+  set_pending s (st_pending s ++ [id])%list.
+
+(** expire (IndexedState.expire / LinearState.expire after the repair of D52):
+    nothing is removed here.  An expired fact is reported as such (the reader
+    skips it) and its id is noted for [purge]. *)
+Definition expire (s : state) (id : string) (fact : json) (now : Z) : state * bool :=
+  if fact_expired fact now then (note_expired s id, true) else (s, false).
+
+(** Iterate over candidate ids: skip the ones that are not present, note and
+    skip the expired ones, re-match the others.  Result: (id, bindings list)
+    of the matching live facts.  The fact map is not modified. *)
+Fixpoint search_ids (s : state) (ids : list string) (pattern : json) (now : Z)
+         (acc : list (string * list bindings)) : state * outcome (list (string * list bindings)) :=
+  match ids with
+  | [] => (s, Ok (rev acc))
+  | id :: r =>
+      match alookup id (st_facts s) with
+      | None => search_ids s r pattern now acc
+      | Some fact =>
+          let '(s1, expired) := expire s id fact now in
+          if expired then search_ids s1 r pattern now acc
+          else match core_match pattern fact [] with
+               | Ok [] => search_ids s1 r pattern now acc
+               | Ok bss => search_ids s1 r pattern now ((id, bss) :: acc)
+               | Err e => (s1, Err e)
+               | Panic w => (s1, Panic w)
+               | OutOfFuel => (s1, OutOfFuel)
+               end
+      end
+  end.
+
+(** IndexedState.search / LinearState.search *)
+Definition search_state (s : state) (pattern : json) (now : Z)
+  : state * outcome (list (string * list bindings)) :=
+  match st_kind s with
+  | Indexed =>
+      match ti_search (st_tindex s) (extract_terms pattern) with
+      | Ok ids => search_ids s ids pattern now []
+      | Err e => (s, Err e)
+      | Panic w => (s, Panic w)
+      | OutOfFuel => (s, OutOfFuel)
+      end
+  | Linear => search_ids s (map fst (st_facts s)) pattern now []
+  end.
+
 Section WithRem.
   (** [rem_rec s id now]: the (fuelled) recursive removal. *)
   Variable rem_rec : state -> string -> Z -> state * outcome bool.
-
-  Definition count_facts (s : state) : nat := length (st_facts s).
-
-  (** expire: if the fact is expired, remove it; returns the state, whether
-      the fact was expired, and the error of the removal if it failed
-      ([return true, err] of IndexedState.expire / LinearState.expire: the
-      storage call of the removal failed, or the cascade under it did). *)
-  Definition expire (s : state) (id : string) (fact : json) (now : Z) : state * bool * option string :=
-    if fact_expired fact now then
-      let before := count_facts s in
-      let '(s', o) := rem_rec s id now in
-      (if (S (count_facts s') <? before)%nat then set_amb s' true else s', true,
-       match o with Err e => Some e | _ => None end)
-    else (s, false, None).
-
-  (** What the iterating callers do with the error of [expire]:
-      IndexedState.search / doFindRules log it and carry on (the item counts
-      as expired); LinearState.search / doFindRules return it at once. *)
-  Definition expire_stops (k : skind) (err : option string) : option string :=
-    match err with
-    | None => None
-    | Some e => match k with Linear => Some e | Indexed => None end
-    end.
-
-  (** Iterate over candidate ids: skip the ones no longer present, expire,
-      re-match.  Result: (id, bindings list) of the matching live facts. *)
-  Fixpoint search_ids (s : state) (ids : list string) (pattern : json) (now : Z)
-           (acc : list (string * list bindings)) : state * outcome (list (string * list bindings)) :=
-    match ids with
-    | [] => (s, Ok (rev acc))
-    | id :: r =>
-        match alookup id (st_facts s) with
-        | None => search_ids s r pattern now acc
-        | Some fact =>
-            let '(s1, expired, err) := expire s id fact now in
-            match expire_stops (st_kind s) err with
-            | Some e => (s1, Err e)
-            | None =>
-            if expired then search_ids s1 r pattern now acc
-            else match core_match pattern fact [] with
-                 | Ok [] => search_ids s1 r pattern now acc
-                 | Ok bss => search_ids s1 r pattern now ((id, bss) :: acc)
-                 | Err e => (s1, Err e)
-                 | Panic w => (s1, Panic w)
-                 | OutOfFuel => (s1, OutOfFuel)
-                 end
-            end
-        end
-    end.
-
-  Definition search_state (s : state) (pattern : json) (now : Z)
-    : state * outcome (list (string * list bindings)) :=
-    match st_kind s with
-    | Indexed =>
-        match ti_search (st_tindex s) (extract_terms pattern) with
-        | Ok ids => search_ids s ids pattern now []
-        | Err e => (s, Err e)
-        | Panic w => (s, Panic w)
-        | OutOfFuel => (s, OutOfFuel)
-        end
-    | Linear => search_ids s (map fst (st_facts s)) pattern now []
-    end.
 
   Fixpoint rem_list (s : state) (ids : list string) (skip : string) (now : Z) : state * outcome unit :=
     match ids with
@@ -303,6 +295,8 @@ Section WithRem.
              end
     end.
 
+  (** deleteDependencies: the search only notes the expired items it meets
+      (they are purged when the public operation has released its lock) *)
   Definition delete_dependencies (s : state) (id : string) (now : Z) : state * outcome unit :=
     match search_state s (dw_pattern id) now with
     | (s1, Ok found) =>
@@ -365,44 +359,109 @@ Fixpoint rem_fuel (fuel : nat) (s : state) (id : string) (now : Z) : state * out
 
 Definition cascade_fuel (s : state) : nat := (2 * length (st_facts s) + 4)%nat.
 
-(** State.rem *)
+(** State.rem (IndexedState.rem / LinearState.rem with its cascade) *)
 Definition st_rem (s : state) (id : string) (now : Z) : state * outcome bool :=
   rem_fuel (cascade_fuel s) s id now.
 
 Definition st_rem_rec (s : state) (id : string) (now : Z) : state * outcome bool :=
   rem_fuel (cascade_fuel s) s id now.
 
+(** ** purge (under the write lock, after the reader has released its lock)
+
+    One round: every noted id that is still present and still expired is
+    removed with its cascade; the error of a removal is logged and dropped
+    (a Go panic is not). *)
+Fixpoint purge_ids (s : state) (ids : list string) (now : Z) : state * outcome unit :=
+  match ids with
+  | [] => (s, Ok tt)
+  | id :: r =>
+      match alookup id (st_facts s) with
+      | None => purge_ids s r now
+      | Some fact =>
+          if fact_expired fact now then
+            match st_rem s id now with
+            | (s1, Ok _) => purge_ids s1 r now
+            | (s1, Err _) => purge_ids s1 r now
+            | (s1, Panic w) => (s1, Panic w)
+            | (s1, OutOfFuel) => (s1, OutOfFuel)
+            end
+          else purge_ids s r now
+      end
+  end.
+
+(** `for ; 0 < len(ids); ids = s.expired.take()`: the cascades of a round
+    search for dependents and can note more expired items. *)
+Fixpoint purge_fuel (fuel : nat) (s : state) (now : Z) : state * outcome unit :=
+  match st_pending s with
+  | [] => (s, Ok tt)
+  | ids =>
+      match fuel with
+      | O => (s, OutOfFuel)
+      | S f =>
+          match purge_ids (set_pending s []) ids now with
+          | (s1, Ok _) => purge_fuel f s1 now
+          | (s1, Err e) => (s1, Err e)
+          | (s1, Panic w) => (s1, Panic w)
+          | (s1, OutOfFuel) => (s1, OutOfFuel)
+          end
+      end
+  end.
+
+(** a round that notes new ids has removed at least one fact *)
+Definition purge_rounds (s : state) : nat := S (length (st_facts s)).
+
+Definition purge (s : state) (now : Z) : state * outcome unit :=
+  purge_fuel (purge_rounds s) s now.
+
+(** A public entry point: the operation proper, then the purge (whatever the
+    operation answered).  The answer is the operation's; only a panic inside
+    the purge would replace it. *)
+Definition with_purge {A} (r : state * outcome A) (now : Z) : state * outcome A :=
+  let p := purge (fst r) now in
+  (fst p,
+   match snd r with
+   | Panic w => Panic w
+   | OutOfFuel => OutOfFuel
+   | o => match snd p with
+          | Panic w => Panic w
+          | OutOfFuel => OutOfFuel
+          | _ => o
+          end
+   end).
+
 (** State.Search *)
 Definition st_search (s : state) (pattern : json) (now : Z)
   : state * outcome (list (string * list bindings)) :=
-  search_state st_rem_rec s pattern now.
+  with_purge (search_state s pattern now) now.
 
-(** State.Get *)
-Definition st_get (s : state) (id : string) (now : Z) : state * outcome json :=
+(** State.get (the lookup of State.Get: an expired item is noted and reported
+    as not found) *)
+Definition get_body (s : state) (id : string) (now : Z) : state * outcome json :=
   match alookup id (st_facts s) with
   | None => (s, Err "notfound")
   | Some fact =>
-      if fact_expired fact now then
-        match st_rem s id now with
-        | (s1, Ok _) => (s1, Err "notfound")
-        | (s1, Err e) => (s1, Err e)
-        | (s1, Panic w) => (s1, Panic w)
-        | (s1, OutOfFuel) => (s1, OutOfFuel)
-        end
-      else (s, Ok fact)
+      let '(s1, expired) := expire s id fact now in
+      if expired then (s1, Err "notfound") else (s1, Ok fact)
   end.
 
+(** State.Get *)
+Definition st_get (s : state) (id : string) (now : Z) : state * outcome json :=
+  with_purge (get_body s id now) now.
+
 (** State.Rem (public): with the cron hooks installed the rem hook first
-    fetches the fact, so a missing id is "not found". *)
+    fetches the fact (State.Get, with its own purge), so a missing id is
+    "not found"; then the removal with its cascade; then the purge of what
+    the cascade's searches noted. *)
 Definition st_Rem (s : state) (id : string) (now : Z) : state * outcome bool :=
-  if st_hooks s then
-    match st_get s id now with
-    | (s1, Ok _) => st_rem s1 id now
-    | (s1, Err e) => (s1, Err e)
-    | (s1, Panic w) => (s1, Panic w)
-    | (s1, OutOfFuel) => (s1, OutOfFuel)
-    end
-  else st_rem s id now.
+  with_purge
+    (if st_hooks s then
+       match st_get s id now with
+       | (s1, Ok _) => st_rem s1 id now
+       | (s1, Err e) => (s1, Err e)
+       | (s1, Panic w) => (s1, Panic w)
+       | (s1, OutOfFuel) => (s1, OutOfFuel)
+       end
+     else st_rem s id now) now.
 
 (** State.Add *)
 Definition st_add_mem_idx (s : state) (id : string) (fact : json) : state * option string :=
@@ -621,8 +680,7 @@ Fixpoint find_ids_idx (s : state) (ids : list string) (now : Z) (acc : list (str
       match alookup id (st_facts s) with
       | None => (s, Err "lost rule")
       | Some fact =>
-          (* the error of the purge is logged only (IndexedState.doFindRules) *)
-          let '(s1, expired, _) := expire st_rem_rec s id fact now in
+          let '(s1, expired) := expire s id fact now in
           if expired then find_ids_idx s1 r now acc
           else match extract_rule fact true with
                | Ok (Some body) => find_ids_idx s1 r now ((id, body) :: acc)
@@ -645,10 +703,7 @@ Fixpoint find_ids_lin (s : state) (ids : list string) (event : json) (now : Z) (
           match jget "rule" fact with
           | None => find_ids_lin s r event now acc
           | Some rule =>
-              let '(s1, expired, err) := expire st_rem_rec s id fact now in
-              match err with
-              | Some e => (s1, Err e)   (* LinearState.doFindRules: return nil, err *)
-              | None =>
+              let '(s1, expired) := expire s id fact now in
               if expired then find_ids_lin s1 r event now acc
               else match rule with
                    | JObj rm =>
@@ -666,10 +721,24 @@ Fixpoint find_ids_lin (s : state) (ids : list string) (event : json) (now : Z) (
                        end
                    | _ => find_ids_lin s1 r event now acc
                    end
-              end
           end
       end
   end.
+
+(** doFindRules (with its deferred purge, which runs after the read lock is released) *)
+Definition do_find_rules (s : state) (event : json) (now : Z)
+  : state * outcome (list (string * json)) :=
+  with_purge
+    (match st_kind s with
+     | Indexed =>
+         match pi_search (st_pindex s) event with
+         | Ok ids => find_ids_idx s ids now []
+         | Err e => (s, Err e)
+         | Panic w => (s, Panic w)
+         | OutOfFuel => (s, OutOfFuel)
+         end
+     | Linear => find_ids_lin s (map fst (st_facts s)) event now []
+     end) now.
 
 (** FindCachedRules parses every candidate with RuleFromMap; a candidate that
     does not parse (a fact with an ill-typed "rule" property, accepted by
@@ -684,17 +753,7 @@ Definition check_rules (l : list (string * json)) : list (string * json) :=
 (** State.FindCachedRules: id -> rule body of the candidate rules. *)
 Definition st_find_rules (s : state) (event : json) (now : Z)
   : state * outcome (list (string * json)) :=
-  let '(s1, res) :=
-    match st_kind s with
-    | Indexed =>
-        match pi_search (st_pindex s) event with
-        | Ok ids => find_ids_idx s ids now []
-        | Err e => (s, Err e)
-        | Panic w => (s, Panic w)
-        | OutOfFuel => (s, OutOfFuel)
-        end
-    | Linear => find_ids_lin s (map fst (st_facts s)) event now []
-    end in
+  let '(s1, res) := do_find_rules s event now in
   match res with
   | Ok l => (s1, Ok (check_rules l))
   | _ => (s1, res)
